@@ -337,6 +337,59 @@ fn oracle_links(case: &[u8], obs: &mut Obs) -> Result<(), String> {
     Ok(())
 }
 
+/// Note headers (the crate's NoteHeader is private): one record with generated n_namesz / n_descsz / n_type,
+/// decoded through NoteIterator; the typed GNU forms carry exactly the descriptor's words.
+fn oracle_nhdr(case: &[u8], obs: &mut Obs) -> Result<(), String> {
+    use elf::note::{Note, NoteIterator};
+    let mut c = Choice::new(case);
+    let enc = ALL_ENC[c.below(4) as usize];
+    let spec: u8 = specs_for(enc.le)[c.below(2) as usize];
+    let class = class_of(enc);
+    let gnu = c.chance(90);
+    let n_type: u32 = if gnu { *c.pick(&[1u32, 3, 1, 3, 2, 0x80000001]) } else { c.field(32) as u32 };
+    let nl = c.below(20) as usize;
+    let name: Vec<u8> = if gnu { b"GNU\0".to_vec() } else { (0..nl).map(|i| b'A' + (i % 26) as u8).collect() };
+    let dl = if gnu && n_type == 1 && c.bool() { 16 } else { c.below(24) as usize };
+    let desc: Vec<u8> = (0..dl).map(|i| (i as u8).wrapping_mul(29).wrapping_add(c.u8())).collect();
+    let rec = m::NoteRec { n_type, name: name.clone(), desc: desc.clone() };
+    let mut w = m::W::new(enc);
+    rec.write(&mut w, 0, 4);
+    // bytes that follow the record: another plausible record, so that reading beyond the descriptor "works"
+    m::NoteRec { n_type: 3, name: b"GNU\0".to_vec(), desc: vec![0xAA; 8] }.write(&mut w, 0, 4);
+    let data = w.buf;
+    let first = with_endian!(spec, |e| NoteIterator::new(e, class, 4, &data).next());
+    let ctx = format!("{} {} note header (n_namesz {}, n_descsz {}, n_type {:#x}) name {} desc {}", enc.name(), SPEC_NAMES[spec as usize], name.len(), dl, n_type, hex(&name), hex(&desc));
+    let word = |i: usize| verif_model::refs::rd_u32(enc.le, &desc, 4 * i);
+    match first {
+        Some(Note::GnuAbiTag(t)) => {
+            if !(gnu && n_type == 1 && dl >= 16 && Some(t.os) == word(0) && Some(t.major) == word(1) && Some(t.minor) == word(2) && Some(t.subminor) == word(3)) {
+                return Err(format!("{}: decoded {:?}", ctx, t));
+            }
+        }
+        Some(Note::GnuBuildId(b)) => {
+            if !(gnu && n_type == 3 && b.0 == &desc[..]) {
+                return Err(format!("{}: decoded build id {}", ctx, hex(b.0)));
+            }
+        }
+        Some(Note::Unknown(a)) => {
+            if (gnu && (n_type == 1 || n_type == 3)) || a.n_type != n_type as u64 || a.name != &name[..] || a.desc != &desc[..] {
+                return Err(format!("{}: decoded {:?}", ctx, a));
+            }
+        }
+        None => {
+            if !(gnu && n_type == 1 && dl < 16) {
+                return Err(format!("{}: the iterator yielded nothing", ctx));
+            }
+            obs.label("abi_tag_with_short_descriptor_rejected");
+        }
+    }
+    if n_type >> 31 == 1 || dl % 4 != 0 || nl % 4 != 0 {
+        obs.nontrivial();
+    }
+    obs.describe(|| json!({"note": ctx}));
+    Ok(())
+}
+
 /// plain encoding [hi, lo]: all 65536 values of the one-/two-byte derived accessors
 fn oracle_accessors(case: &[u8], obs: &mut Obs) -> Result<(), String> {
     if case.len() < 2 {
@@ -376,7 +429,7 @@ pub fn property() -> Property {
         level: "exploration",
         rule: "struct: cases are (one of 18 structure types, class, byte order, fixed or run-time spec, a field-value assignment with boundary/top-bit/per-byte-distinct/raw values, embedding offset and padding); the independent ELF writer encodes the values per the gABI tables and parse_at must return exactly them (u32 fields zero-extended, d_tag and ELF32 r_addend sign-extended, r_info split by the ELF32/ELF64 macros), advance by exactly the ABI size, agree with size_for, ParsingTable::get, ParsingIterator, and for the file header with parse_ident+parse_tail, ElfBytes.ehdr and ElfStream.ehdr; one byte short must fail. links: the crate-private link fields vd_aux/vd_next/vda_next/vn_aux/vn_next/vna_next observed through where VerDefIterator/VerNeedIterator go. accessors: st_bind/st_symtype/st_vis/is_undefined and VersionIndex index/hidden/local/global exhaustively over 2^16 values. Non-trivial (struct): some field has its top bit set and all same-width fields hold pairwise different values; (links): non-contiguous placement.",
         assumptions: &["the ELF writer's layout equals <elf.h> (checked at start-up against reference/struct_layout.tsv)", "VerDef/VerNeed records are generated with version 1 only (other versions are outside the statement)"],
-        subs: vec![Sub::new("struct", oracle_struct, 200, 1_000_000, 40_000_000), Sub::new("links", oracle_links, 120, 200_000, 5_000_000), Sub::enumerated("accessors", oracle_accessors, enum_accessors, true)],
+        subs: vec![Sub::new("struct", oracle_struct, 200, 1_000_000, 40_000_000), Sub::new("links", oracle_links, 120, 200_000, 5_000_000), Sub::new("nhdr", oracle_nhdr, 80, 200_000, 5_000_000), Sub::enumerated("accessors", oracle_accessors, enum_accessors, true)],
         extras: vec![],
     }
 }
